@@ -327,8 +327,17 @@ def upstream_scripts():
     add("binary", b"20 application/octet-stream", bytes(range(256)) * 3)
     add("empty-body", b"20 text/gemini", b"")
     add("big-1MB", b"20 application/octet-stream", b"\x00\x01" * 500000)
-    for st in (10, 11, 30, 31, 40, 44, 51, 59, 60, 62):
+    for st in (10, 11, 30, 31, 40, 44, 51, 59, 60, 62) + (12, 19, 32, 39, 45, 49, 54, 58, 63, 69):      # named and unnamed statuses alike
         add("status%d" % st, ("%d some meta text" % st).encode(), b"", status=st)
+    for st in (21, 22, 29):
+        add("status%d-body" % st, ("%d text/gemini" % st).encode(), utf, status=st)
+    # one-line metas containing characters some line-splitting helpers treat as breaks (they are not CR or LF): relayed as they are
+    add("meta-vt-ff", b"20 text/plain; note=a\x0bb\x0cc", b"x")
+    add("meta-nel-ls", "51 not found \u0085 \u2028 \u2029 here".encode("utf-8"), b"", status=51)
+    add("meta-fs-gs", b"44 slow down \x1c\x1d\x1e", b"", status=44)
+    # ... and a line break just before the terminator is still a line break inside the header
+    add("meta-trailing-lf", b"51 Not found\n", b"", status=51, meta_cls="bad")
+    add("meta-trailing-cr", b"31 gemini://example.org/new\r", b"", status=31, meta_cls="bad")
     add("redirect-with-body", b"30 gemini://other.ex/x", b"IGNORED-BODY", status=30)
     add("err-with-body", b"51 not found", b"IGNORED-BODY", status=51)
     add("refused", b"20 x", connect="refused")
